@@ -155,7 +155,7 @@ func childDirect(o *core.Obs) {
 			}
 			err := s.ChangeDir(p)
 			c := s.Cwd()
-			if !strings.HasPrefix(c, "/") || c != filepath.Clean(c) || strings.Contains(c, "..") {
+			if !strings.HasPrefix(c, "/") || c != filepath.Clean(c) || hasDotDot(c) {
 				bad("cwd-not-clean", "cwd %q after ChangeDir(%q) (err=%v) is %q", cwd, p, err, c)
 			}
 			if rc := s.RealPath(c); !inside(root, rc) {
@@ -321,6 +321,16 @@ func (f *ftpc) read() string {
 	return out
 }
 
+// hasDotDot tells whether a path has a component that is exactly ".." (a directory may be called "...." or "a..b").
+func hasDotDot(p string) bool {
+	for _, c := range strings.Split(p, "/") {
+		if c == ".." {
+			return true
+		}
+	}
+	return false
+}
+
 func childE2E(b core.Batch, p params, o *core.Obs) {
 	work := lab.WorkDir()
 	base := filepath.Join(work, "box")
@@ -399,7 +409,7 @@ func childE2E(b core.Batch, p params, o *core.Obs) {
 					continue
 				}
 				dir = strings.TrimSpace(dir)
-				if !strings.HasPrefix(dir, "/") || strings.Contains(filepath.Clean(dir), "..") || filepath.Clean(dir) != dir && filepath.Clean(dir) != strings.TrimSuffix(dir, "/") {
+				if !strings.HasPrefix(dir, "/") || hasDotDot(filepath.Clean(dir)) || filepath.Clean(dir) != dir && filepath.Clean(dir) != strings.TrimSuffix(dir, "/") {
 					ob.BadDirs = append(ob.BadDirs, dir)
 				}
 			}
